@@ -1,6 +1,7 @@
 package rules
 
 import (
+	"errors"
 	"fmt"
 	"go/constant"
 	"go/token"
@@ -8,6 +9,7 @@ import (
 	"math/big"
 	"regexp"
 	"sort"
+	"strconv"
 	"strings"
 
 	"golang.org/x/tools/go/ssa"
@@ -1751,6 +1753,9 @@ func c30R4(c *an.Check, fn *ssa.Function) {
 	}
 	c.AtLeast("C30.R4", "Atoi calls", nAtoi, 2)
 
+	// the function itself, interpreted on sample pairs (decisive where it can be run)
+	samplesOK := c30R4Samples(c, fn)
+
 	// (b) element comparisons a[i] ? b[i]
 	var cmps []*c30Cmp
 	for _, b := range fn.Blocks {
@@ -1912,8 +1917,107 @@ func c30R4(c *an.Check, fn *ssa.Function) {
 	}
 	c.AtLeast("C30.R4", "back edges of the comparison loop", nBack, 1)
 
-	// (e) padding with "0" under the matching length comparison
-	c30R4Pad(c, fn)
+	// (e) the function itself, interpreted on sample pairs; then the padding shape
+	c30R4Pad(c, fn, samplesOK, c30Side(w, fn, c30LoopBound(header, cmps[0].idx)))
+}
+
+// c30LoopBound: the slice whose length bounds the comparison loop (nil if not found).
+func c30LoopBound(header *ssa.BasicBlock, idx ssa.Value) ssa.Value {
+	if header == nil {
+		return nil
+	}
+	for _, in := range header.Instrs {
+		bo, ok := in.(*ssa.BinOp)
+		if !ok || !c30IsCmp(bo.Op) {
+			continue
+		}
+		for _, side := range []ssa.Value{bo.X, bo.Y} {
+			if cl, ok := side.(*ssa.Call); ok {
+				if b, isB := cl.Call.Value.(*ssa.Builtin); isB && b.Name() == "len" && len(cl.Call.Args) == 1 {
+					return cl.Call.Args[0]
+				}
+			}
+		}
+	}
+	return nil
+}
+
+// c30RefCompare is the specification: numeric components (maximal digit runs),
+// missing components count as zero, lexicographic a >= b.
+func c30RefCompare(a, b string) bool {
+	re := regexp.MustCompile(`[0-9]+`)
+	pa, pb := re.FindAllString(a, -1), re.FindAllString(b, -1)
+	for len(pa) < len(pb) {
+		pa = append(pa, "0")
+	}
+	for len(pb) < len(pa) {
+		pb = append(pb, "0")
+	}
+	for i := range pa {
+		x, _ := strconv.Atoi(pa[i])
+		y, _ := strconv.Atoi(pb[i])
+		if x != y {
+			return x > y
+		}
+	}
+	return true
+}
+
+// c30R4Samples interprets CompareVersionStrings on sample pairs, among them
+// pairs of different length in both directions with an equal prefix. It returns
+// true when every sample could be interpreted and agreed with the specification.
+func c30R4Samples(c *an.Check, fn *ssa.Function) bool {
+	w := c.W
+	pairs := [][2]string{
+		{"29", "29.2"}, {"23.11", "23.11.2"}, {"v24", "v24.0.1"}, {"29", "29.0"}, {"v23.11", "23.11.0"},
+		{"29.2", "29"}, {"23.11.2", "23.11"}, {"29.0", "29"}, {"24.02.1", "v24.02"},
+		{"1.10", "1.9"}, {"1.9", "1.10"}, {"2.0", "1.5"}, {"1.5", "2.0"}, {"23.11", "23.11"}, {"v23.11rc1", "23.11"},
+		{"0.12.1", "0.12.2"}, {"v0.12.2", "0.12.1"}, {"22", "23.05"}, {"24", "23.05"}, {"", ""},
+	}
+	var wrong []string
+	unknown := ""
+	n := 0
+	for _, p := range pairs {
+		res, outcome, ok, why := c30XRun(w, fn, []interface{}{p[0], p[1]}, nil)
+		if !ok {
+			unknown = why
+			break
+		}
+		want := c30RefCompare(p[0], p[1])
+		if outcome != "return" {
+			wrong = append(wrong, fmt.Sprintf("(%q, %q) -> %s, expected %v", p[0], p[1], outcome, want))
+			continue
+		}
+		got, isB := res[0].(bool)
+		_, errNil := res[1].(c30XNil)
+		switch {
+		case !isB:
+			unknown = "the result is not a boolean"
+		case !errNil:
+			wrong = append(wrong, fmt.Sprintf("(%q, %q) -> error, expected %v", p[0], p[1], want))
+		case got != want:
+			wrong = append(wrong, fmt.Sprintf("(%q, %q) -> %v, expected %v", p[0], p[1], got, want))
+		default:
+			n++
+		}
+		if unknown != "" {
+			break
+		}
+	}
+	pos := w.Pos(fn.Pos())
+	switch {
+	case len(wrong) > 0:
+		if len(wrong) > 6 {
+			wrong = append(wrong[:6], fmt.Sprintf("… %d more", len(wrong)-6))
+		}
+		c.Bad("C30.R4", "CompareVersionStrings on sample pairs", pos, "interpreting the function on sample version pairs gives results that differ from `numeric components, missing components are zero, a >= b`: "+strings.Join(wrong, "; ")+" — missing components are not treated as zero / the order is not the numeric one")
+		return false
+	case unknown != "":
+		c.Note("C30.R4", "CompareVersionStrings on sample pairs", pos, "the function could not be interpreted on sample pairs ("+unknown+"); only the structural obligations apply")
+		return false
+	}
+	c.OK("C30.R4", "CompareVersionStrings on sample pairs", pos, fmt.Sprintf("%d sample pairs (different lengths in both directions, equal prefixes, multi-digit components) agree with the specification", n))
+	return true
 }
 
 // c30ErrFrom: the returned error is the tested error or wraps it (fmt.Errorf
@@ -1966,7 +2070,7 @@ func c30ErrFrom(v ssa.Value, errV ssa.Value, depth int) bool {
 	return false
 }
 
-func c30R4Pad(c *an.Check, fn *ssa.Function) {
+func c30R4Pad(c *an.Check, fn *ssa.Function, samplesOK bool, boundSide string) {
 	w := c.W
 	// linear form over len(A-side), len(B-side)
 	type lin struct {
@@ -2100,6 +2204,8 @@ func c30R4Pad(c *an.Check, fn *ssa.Function) {
 			c.Bad("C30.R4", cons, w.Pos(call.Pos()), fmt.Sprintf("the missing components are filled with %q, not \"0\"", consts))
 		case !guard && wrongWay:
 			c.Bad("C30.R4", cons, w.Pos(call.Pos()), "the side is padded although it is not known to be the shorter one (no dominating comparison of the two lengths in the right direction): it is padded exactly when it is the longer one")
+		case !guard && samplesOK:
+			c.OK("C30.R4", cons, w.Pos(call.Pos()), "padded with \"0\"; the length condition is not one this rule reads, but the sample pairs of different lengths are answered correctly")
 		case !guard:
 			c.Unknown("C30.R4", cons, w.Pos(call.Pos()), "no dominating comparison of the two lengths was recognised; cannot tell under which condition this side is padded")
 		default:
@@ -2107,8 +2213,20 @@ func c30R4Pad(c *an.Check, fn *ssa.Function) {
 		}
 	}
 	for _, side := range []string{"a", "b"} {
-		if !seen[side] {
-			c.Unknown("C30.R4", "CompareVersionStrings padding of "+side, w.Pos(fn.Pos()), "no append of a constant to the components of "+side+" was found in this function: cannot establish that a shorter "+side+" is treated as having zero components")
+		if seen[side] {
+			continue
+		}
+		other := map[string]string{"a": "b", "b": "a"}[side]
+		cons := "CompareVersionStrings padding of " + side
+		switch {
+		case seen[other] && boundSide == side:
+			// asymmetric: the other operand is padded up to this one, this one never is,
+			// and the comparison loop runs over this (unpadded) operand's components
+			c.Bad("C30.R4", cons, w.Pos(fn.Pos()), "missing components of "+side+" are not treated as zero: "+other+" is padded with \"0\" but "+side+" never is, and the comparison loop is bounded by the components of "+side+", so a shorter "+side+" with an equal prefix compares as >= (e.g. \"29\" vs \"29.2\")")
+		case samplesOK:
+			c.Note("C30.R4", cons, w.Pos(fn.Pos()), "no append of a constant to the components of "+side+" was found; the sample pairs with a shorter "+side+" are nevertheless answered as if the missing components were zero")
+		default:
+			c.Unknown("C30.R4", cons, w.Pos(fn.Pos()), "no append of a constant to the components of "+side+" was found in this function: cannot establish that a shorter "+side+" is treated as having zero components")
 		}
 	}
 }
@@ -2188,4 +2306,752 @@ func c30IsAPI(fn *ssa.Function) bool {
 		return n != nil && n.Obj().Exported()
 	}
 	return true
+}
+
+// ---- bounded concrete interpreter ------------------------------------------------
+//
+// c30XRun interprets the SSA form of a small pure function on concrete inputs
+// (integers, strings, booleans, slices of them, errors). Library calls are
+// modelled for the handful of functions these rules meet (strconv, fmt.Sprintf
+// with integer verbs, regexp with a constant pattern, errors); in-module static
+// callees are interpreted recursively. Anything else ends the run as
+// "not interpretable" (never as a verdict). Nothing of the repository is
+// executed: the checker walks the instructions itself.
+
+type c30XSlice struct{ elems []interface{} }
+type c30XArr struct{ elems []interface{} }
+type c30XCell struct{ v interface{} }
+type c30XRef struct {
+	elems *[]interface{}
+	i     int
+}
+type c30XStruct struct{ fields []interface{} }
+type c30XErr struct{ msg string } // a non-nil error
+type c30XNil struct{}             // nil pointer / interface / error
+type c30XIface struct {
+	v interface{}
+	t types.Type
+}
+type c30XUnknown struct{ why string }
+type c30XTuple []interface{}
+
+type c30XInterp struct {
+	w     *an.World
+	steps int
+	// leaf may supply the value of an instruction the interpreter cannot compute
+	// (a field of external data, ...)
+	leaf func(v ssa.Value) (interface{}, bool)
+}
+
+type c30XAbort struct{ why string }
+
+func (it *c30XInterp) abort(format string, a ...interface{}) {
+	panic(c30XAbort{fmt.Sprintf(format, a...)})
+}
+
+// c30XRun interprets fn(args...). outcome is "return" or "panic"; ok is false
+// when the function left the interpreted subset (why says where).
+func c30XRun(w *an.World, fn *ssa.Function, args []interface{}, leaf func(ssa.Value) (interface{}, bool)) (results []interface{}, outcome string, ok bool, why string) {
+	it := &c30XInterp{w: w, leaf: leaf}
+	defer func() {
+		if r := recover(); r != nil {
+			if a, isA := r.(c30XAbort); isA {
+				results, outcome, ok, why = nil, "", false, a.why
+				return
+			}
+			panic(r)
+		}
+	}()
+	res, out := it.call(fn, args, 0)
+	return res, out, true, ""
+}
+
+func c30XZero(t types.Type) interface{} {
+	switch u := t.Underlying().(type) {
+	case *types.Basic:
+		switch {
+		case u.Info()&types.IsInteger != 0:
+			return int64(0)
+		case u.Info()&types.IsString != 0:
+			return ""
+		case u.Info()&types.IsBoolean != 0:
+			return false
+		}
+	case *types.Slice:
+		return &c30XSlice{}
+	case *types.Pointer, *types.Interface, *types.Map, *types.Chan, *types.Signature:
+		return c30XNil{}
+	case *types.Struct:
+		st := &c30XStruct{fields: make([]interface{}, u.NumFields())}
+		for i := range st.fields {
+			st.fields[i] = c30XZero(u.Field(i).Type())
+		}
+		return st
+	}
+	return c30XUnknown{"zero value of " + t.String()}
+}
+
+func (it *c30XInterp) call(fn *ssa.Function, args []interface{}, depth int) ([]interface{}, string) {
+	if fn.Blocks == nil || depth > 4 {
+		it.abort("call of %s (no body or too deep)", fn.Name())
+	}
+	if len(args) != len(fn.Params) {
+		it.abort("arity of %s", fn.Name())
+	}
+	env := map[ssa.Value]interface{}{}
+	for i, p := range fn.Params {
+		env[p] = args[i]
+	}
+	var get func(v ssa.Value) interface{}
+	get = func(v ssa.Value) interface{} {
+		if x, ok := env[v]; ok {
+			return x
+		}
+		switch k := v.(type) {
+		case *ssa.Const:
+			if k.Value == nil {
+				if _, isSl := k.Type().Underlying().(*types.Slice); isSl {
+					return &c30XSlice{}
+				}
+				return c30XNil{}
+			}
+			switch k.Value.Kind() {
+			case constant.Bool:
+				return constant.BoolVal(k.Value)
+			case constant.String:
+				return constant.StringVal(k.Value)
+			case constant.Int:
+				if i, ok := constant.Int64Val(k.Value); ok {
+					return i
+				}
+				if u, ok := constant.Uint64Val(k.Value); ok {
+					return int64(u)
+				}
+			}
+		case *ssa.Global:
+			// a package-level variable: its initialiser, when it is one call with constant arguments
+			if k.Pkg != nil {
+				if ini := k.Pkg.Func("init"); ini != nil {
+					for _, b := range ini.Blocks {
+						for _, in := range b.Instrs {
+							if st, ok := in.(*ssa.Store); ok && st.Addr == ssa.Value(k) {
+								if cc, ok := st.Val.(*ssa.Call); ok {
+									var as []interface{}
+									for _, a := range cc.Call.Args {
+										if c, isC := a.(*ssa.Const); isC && c.Value != nil && c.Value.Kind() == constant.String {
+											as = append(as, constant.StringVal(c.Value))
+										} else {
+											it.abort("initialiser of %s has non-constant arguments", k.Name())
+										}
+									}
+									if r, ok := it.lib(cc, as); ok {
+										return &c30XCell{v: r}
+									}
+								}
+							}
+						}
+					}
+				}
+			}
+		}
+		if it.leaf != nil {
+			if x, ok := it.leaf(v); ok {
+				return x
+			}
+		}
+		it.abort("value %s (%T) is not available", v.Name(), v)
+		return nil
+	}
+	blk := fn.Blocks[0]
+	var prev *ssa.BasicBlock
+	for {
+		// phis, in parallel
+		phis := map[ssa.Value]interface{}{}
+		for _, in := range blk.Instrs {
+			p, ok := in.(*ssa.Phi)
+			if !ok {
+				break
+			}
+			for i, pr := range blk.Preds {
+				if pr == prev {
+					phis[p] = get(p.Edges[i])
+					break
+				}
+			}
+		}
+		for k, v := range phis {
+			env[k] = v
+		}
+		for _, in := range blk.Instrs {
+			it.steps++
+			if it.steps > 200000 {
+				it.abort("step bound exceeded")
+			}
+			switch x := in.(type) {
+			case *ssa.Phi, *ssa.DebugRef, *ssa.Defer, *ssa.RunDefers:
+			case *ssa.Alloc:
+				el := x.Type().Underlying().(*types.Pointer).Elem()
+				if arr, isArr := el.Underlying().(*types.Array); isArr {
+					a := &c30XArr{elems: make([]interface{}, arr.Len())}
+					for i := range a.elems {
+						a.elems[i] = c30XZero(arr.Elem())
+					}
+					env[x] = a
+				} else {
+					env[x] = &c30XCell{v: c30XZero(el)}
+				}
+			case *ssa.Store:
+				switch a := get(x.Addr).(type) {
+				case *c30XCell:
+					a.v = get(x.Val)
+				case *c30XRef:
+					(*a.elems)[a.i] = get(x.Val)
+				default:
+					it.abort("store through %T", a)
+				}
+			case *ssa.UnOp:
+				v := get(x.X)
+				switch x.Op {
+				case token.MUL:
+					switch a := v.(type) {
+					case *c30XCell:
+						env[x] = a.v
+					case *c30XRef:
+						env[x] = (*a.elems)[a.i]
+					default:
+						if it.leaf != nil {
+							if r, ok := it.leaf(x); ok {
+								env[x] = r
+								continue
+							}
+						}
+						it.abort("load through %T", a)
+					}
+				case token.NOT:
+					b, ok := v.(bool)
+					if !ok {
+						it.abort("! of %T", v)
+					}
+					env[x] = !b
+				case token.SUB:
+					i, ok := v.(int64)
+					if !ok {
+						it.abort("- of %T", v)
+					}
+					env[x] = c30XWrapInt(-i, x.Type())
+				default:
+					it.abort("unary %s", x.Op)
+				}
+			case *ssa.BinOp:
+				env[x] = it.binop(x, get(x.X), get(x.Y))
+			case *ssa.Convert:
+				v := get(x.X)
+				switch a := v.(type) {
+				case int64:
+					if b, isB := x.Type().Underlying().(*types.Basic); isB && b.Info()&types.IsInteger != 0 {
+						env[x] = c30XWrapInt(a, x.Type())
+					} else {
+						it.abort("conversion of an integer to %s", x.Type())
+					}
+				case string:
+					env[x] = a // string <-> named string, []byte(string) kept as string
+				case *c30XSlice:
+					env[x] = a
+				default:
+					it.abort("conversion of %T", v)
+				}
+			case *ssa.ChangeType:
+				env[x] = get(x.X)
+			case *ssa.ChangeInterface:
+				env[x] = get(x.X)
+			case *ssa.MakeInterface:
+				env[x] = c30XIface{v: get(x.X), t: x.X.Type()}
+			case *ssa.FieldAddr:
+				var st *c30XStruct
+				switch a := get(x.X).(type) {
+				case *c30XCell:
+					st, _ = a.v.(*c30XStruct)
+				case *c30XRef:
+					st, _ = (*a.elems)[a.i].(*c30XStruct)
+				}
+				if st == nil || x.Field >= len(st.fields) {
+					if it.leaf != nil {
+						if r, ok := it.leaf(x); ok {
+							env[x] = r
+							continue
+						}
+					}
+					it.abort("field address in something that is not a local struct")
+				}
+				env[x] = &c30XRef{elems: &st.fields, i: x.Field}
+			case *ssa.Field:
+				st, ok := get(x.X).(*c30XStruct)
+				if !ok || x.Field >= len(st.fields) {
+					it.abort("field of something that is not a local struct")
+				}
+				env[x] = st.fields[x.Field]
+			case *ssa.IndexAddr:
+				i, ok := get(x.Index).(int64)
+				if !ok {
+					it.abort("non-integer index")
+				}
+				var elems *[]interface{}
+				switch a := get(x.X).(type) {
+				case *c30XArr:
+					elems = &a.elems
+				case *c30XSlice:
+					elems = &a.elems
+				default:
+					it.abort("index into %T", a)
+				}
+				if i < 0 || int(i) >= len(*elems) {
+					return nil, "panic: index out of range"
+				}
+				env[x] = &c30XRef{elems: elems, i: int(i)}
+			case *ssa.Slice:
+				lo, hi := int64(0), int64(-1)
+				if x.Low != nil {
+					lo, _ = get(x.Low).(int64)
+				}
+				if x.High != nil {
+					hi, _ = get(x.High).(int64)
+				}
+				switch a := get(x.X).(type) {
+				case *c30XArr:
+					if hi < 0 {
+						hi = int64(len(a.elems))
+					}
+					if lo < 0 || hi > int64(len(a.elems)) || lo > hi {
+						return nil, "panic: slice bounds out of range"
+					}
+					env[x] = &c30XSlice{elems: a.elems[lo:hi:hi]}
+				case *c30XSlice:
+					if hi < 0 {
+						hi = int64(len(a.elems))
+					}
+					if lo < 0 || hi > int64(len(a.elems)) || lo > hi {
+						return nil, "panic: slice bounds out of range"
+					}
+					env[x] = &c30XSlice{elems: a.elems[lo:hi:hi]}
+				case string:
+					if hi < 0 {
+						hi = int64(len(a))
+					}
+					if lo < 0 || hi > int64(len(a)) || lo > hi {
+						return nil, "panic: slice bounds out of range"
+					}
+					env[x] = a[lo:hi]
+				default:
+					it.abort("slice of %T", a)
+				}
+			case *ssa.Extract:
+				t, ok := get(x.Tuple).(c30XTuple)
+				if !ok || x.Index >= len(t) {
+					it.abort("extract from a non-tuple")
+				}
+				env[x] = t[x.Index]
+			case *ssa.Call:
+				var as []interface{}
+				for _, a := range x.Call.Args {
+					as = append(as, get(a))
+				}
+				if b, isB := x.Call.Value.(*ssa.Builtin); isB {
+					env[x] = it.builtin(b.Name(), as, x)
+					continue
+				}
+				if x.Call.IsInvoke() {
+					it.abort("interface call %s", x.Call.Method.Name())
+				}
+				f := x.Call.StaticCallee()
+				if f == nil {
+					it.abort("dynamic call")
+				}
+				if r, ok := it.lib(x, as); ok {
+					env[x] = r
+					continue
+				}
+				if it.w.InModule(f) && f.Blocks != nil {
+					if it.w.FnRel(f) == "log" {
+						env[x] = c30XTuple{}
+						continue
+					}
+					res, out := it.call(f, as, depth+1)
+					if out != "return" {
+						return nil, out
+					}
+					if len(res) == 1 {
+						env[x] = res[0]
+					} else {
+						env[x] = c30XTuple(res)
+					}
+					continue
+				}
+				it.abort("call of %s is not modelled", it.w.FuncName(f))
+			case *ssa.Jump:
+				prev, blk = blk, blk.Succs[0]
+			case *ssa.If:
+				b, ok := get(x.Cond).(bool)
+				if !ok {
+					it.abort("branch on a value that is not a known boolean")
+				}
+				prev = blk
+				if b {
+					blk = blk.Succs[0]
+				} else {
+					blk = blk.Succs[1]
+				}
+			case *ssa.Return:
+				var res []interface{}
+				for _, r := range x.Results {
+					res = append(res, get(r))
+				}
+				return res, "return"
+			case *ssa.Panic:
+				return nil, "panic"
+			default:
+				it.abort("instruction %T is not interpreted", in)
+			}
+		}
+		if blk == nil {
+			it.abort("fell off a block")
+		}
+	}
+}
+
+// c30XWrapInt applies Go's conversion semantics for the integer type t.
+func c30XWrapInt(i int64, t types.Type) int64 {
+	b, ok := t.Underlying().(*types.Basic)
+	if !ok {
+		return i
+	}
+	switch b.Kind() {
+	case types.Int8:
+		return int64(int8(i))
+	case types.Int16:
+		return int64(int16(i))
+	case types.Int32:
+		return int64(int32(i))
+	case types.Uint8:
+		return int64(uint8(i))
+	case types.Uint16:
+		return int64(uint16(i))
+	case types.Uint32:
+		return int64(uint32(i))
+	}
+	return i
+}
+
+func (it *c30XInterp) binop(x *ssa.BinOp, l, r interface{}) interface{} {
+	switch a := l.(type) {
+	case int64:
+		b, ok := r.(int64)
+		if !ok {
+			it.abort("integer %s %T", x.Op, r)
+		}
+		switch x.Op {
+		case token.ADD:
+			return c30XWrapInt(a+b, x.Type())
+		case token.SUB:
+			return c30XWrapInt(a-b, x.Type())
+		case token.MUL:
+			return c30XWrapInt(a*b, x.Type())
+		case token.QUO:
+			if b == 0 {
+				it.abort("division by zero")
+			}
+			return c30XWrapInt(a/b, x.Type())
+		case token.REM:
+			if b == 0 {
+				it.abort("division by zero")
+			}
+			return c30XWrapInt(a%b, x.Type())
+		case token.AND:
+			return a & b
+		case token.OR:
+			return a | b
+		case token.XOR:
+			return a ^ b
+		case token.SHL:
+			return c30XWrapInt(a<<uint(b), x.Type())
+		case token.SHR:
+			return a >> uint(b)
+		case token.EQL:
+			return a == b
+		case token.NEQ:
+			return a != b
+		case token.LSS:
+			return a < b
+		case token.LEQ:
+			return a <= b
+		case token.GTR:
+			return a > b
+		case token.GEQ:
+			return a >= b
+		}
+	case string:
+		b, ok := r.(string)
+		if !ok {
+			it.abort("string %s %T", x.Op, r)
+		}
+		switch x.Op {
+		case token.ADD:
+			return a + b
+		case token.EQL:
+			return a == b
+		case token.NEQ:
+			return a != b
+		case token.LSS:
+			return a < b
+		case token.LEQ:
+			return a <= b
+		case token.GTR:
+			return a > b
+		case token.GEQ:
+			return a >= b
+		}
+	case bool:
+		b, ok := r.(bool)
+		if !ok {
+			it.abort("bool %s %T", x.Op, r)
+		}
+		switch x.Op {
+		case token.EQL:
+			return a == b
+		case token.NEQ:
+			return a != b
+		case token.AND:
+			return a && b
+		case token.OR:
+			return a || b
+		}
+	}
+	// comparisons with nil
+	if x.Op == token.EQL || x.Op == token.NEQ {
+		isNil := func(v interface{}) (bool, bool) {
+			switch s := v.(type) {
+			case c30XNil:
+				return true, true
+			case *c30XErr:
+				return s == nil, true
+			case c30XIface:
+				return false, true
+			case *c30XSlice:
+				return s == nil || s.elems == nil, true
+			}
+			return false, false
+		}
+		_, lConst := x.X.(*ssa.Const)
+		_, rConst := x.Y.(*ssa.Const)
+		ln, lok := isNil(l)
+		rn, rok := isNil(r)
+		if lok && rok && (lConst || rConst) {
+			return (ln == rn) == (x.Op == token.EQL)
+		}
+	}
+	it.abort("binary %s on %T, %T", x.Op, l, r)
+	return nil
+}
+
+func (it *c30XInterp) builtin(name string, as []interface{}, at *ssa.Call) interface{} {
+	switch name {
+	case "len", "cap":
+		switch a := as[0].(type) {
+		case *c30XSlice:
+			if a == nil {
+				return int64(0)
+			}
+			return int64(len(a.elems))
+		case string:
+			return int64(len(a))
+		case *c30XArr:
+			return int64(len(a.elems))
+		}
+	case "append":
+		s, ok := as[0].(*c30XSlice)
+		if !ok {
+			break
+		}
+		var add []interface{}
+		switch t := as[1].(type) {
+		case *c30XSlice:
+			if t != nil {
+				add = t.elems
+			}
+		default:
+			it.abort("append of %T", t)
+		}
+		out := make([]interface{}, 0, len(s.elems)+len(add))
+		out = append(append(out, s.elems...), add...)
+		return &c30XSlice{elems: out}
+	case "min", "max":
+		best, ok := as[0].(int64)
+		if !ok {
+			break
+		}
+		for _, a := range as[1:] {
+			v, ok := a.(int64)
+			if !ok {
+				it.abort("%s of %T", name, a)
+			}
+			if (name == "min" && v < best) || (name == "max" && v > best) {
+				best = v
+			}
+		}
+		return best
+	}
+	it.abort("builtin %s is not modelled for these operands", name)
+	return nil
+}
+
+// c30XGoValue turns an interpreter value into a Go value for fmt.
+func c30XGoValue(v interface{}) interface{} {
+	if i, ok := v.(c30XIface); ok {
+		if n, isInt := i.v.(int64); isInt {
+			if b, isB := i.t.Underlying().(*types.Basic); isB {
+				switch b.Kind() {
+				case types.Uint8:
+					return uint8(n)
+				case types.Uint16:
+					return uint16(n)
+				case types.Uint32:
+					return uint32(n)
+				case types.Uint, types.Uint64, types.Uintptr:
+					return uint64(n)
+				case types.Int8:
+					return int8(n)
+				case types.Int16:
+					return int16(n)
+				case types.Int32:
+					return int32(n)
+				}
+			}
+			return n
+		}
+		return c30XGoValue(i.v)
+	}
+	switch x := v.(type) {
+	case *c30XErr:
+		if x == nil {
+			return nil
+		}
+		return errors.New(x.msg)
+	case c30XNil:
+		return nil
+	}
+	return v
+}
+
+// lib models the library functions these rules meet.
+func (it *c30XInterp) lib(call *ssa.Call, as []interface{}) (interface{}, bool) {
+	f := call.Call.StaticCallee()
+	if f == nil || it.w.InModule(f) {
+		return nil, false
+	}
+	name := it.w.Info(call).Name
+	str := func(i int) string {
+		s, ok := as[i].(string)
+		if !ok {
+			it.abort("%s: argument %d is not a string", name, i)
+		}
+		return s
+	}
+	num := func(i int) int64 {
+		n, ok := as[i].(int64)
+		if !ok {
+			it.abort("%s: argument %d is not an integer", name, i)
+		}
+		return n
+	}
+	errOf := func(err error) interface{} {
+		if err == nil {
+			return c30XNil{}
+		}
+		return &c30XErr{msg: err.Error()}
+	}
+	switch name {
+	case "func:strconv.Atoi":
+		n, err := strconv.Atoi(str(0))
+		return c30XTuple{int64(n), errOf(err)}, true
+	case "func:strconv.ParseInt":
+		n, err := strconv.ParseInt(str(0), int(num(1)), int(num(2)))
+		return c30XTuple{n, errOf(err)}, true
+	case "func:strconv.ParseUint":
+		n, err := strconv.ParseUint(str(0), int(num(1)), int(num(2)))
+		return c30XTuple{int64(n), errOf(err)}, true
+	case "func:strconv.FormatInt":
+		return strconv.FormatInt(num(0), int(num(1))), true
+	case "func:strconv.FormatUint":
+		return strconv.FormatUint(uint64(num(0)), int(num(1))), true
+	case "func:strconv.Itoa":
+		return strconv.Itoa(int(num(0))), true
+	case "func:fmt.Sprintf", "func:fmt.Errorf":
+		var vs []interface{}
+		if len(as) > 1 {
+			sl, ok := as[1].(*c30XSlice)
+			if !ok {
+				it.abort("%s: variadic arguments", name)
+			}
+			if sl != nil {
+				for _, e := range sl.elems {
+					vs = append(vs, c30XGoValue(e))
+				}
+			}
+		}
+		if name == "func:fmt.Errorf" {
+			return &c30XErr{msg: fmt.Sprintf(strings.ReplaceAll(str(0), "%w", "%v"), vs...)}, true
+		}
+		return fmt.Sprintf(str(0), vs...), true
+	case "func:errors.New":
+		return &c30XErr{msg: str(0)}, true
+	case "func:regexp.MustCompile":
+		re, err := regexp.Compile(str(0))
+		if err != nil {
+			it.abort("pattern does not compile")
+		}
+		return re, true
+	case "func:(*regexp.Regexp).FindAllString":
+		re, ok := as[0].(*regexp.Regexp)
+		if !ok {
+			it.abort("regexp receiver is not a compiled constant pattern")
+		}
+		ms := re.FindAllString(str(1), int(num(2)))
+		if ms == nil {
+			return &c30XSlice{}, true
+		}
+		out := &c30XSlice{elems: make([]interface{}, len(ms))}
+		for i, m := range ms {
+			out.elems[i] = m
+		}
+		return out, true
+	case "func:(*regexp.Regexp).FindStringSubmatch":
+		re, ok := as[0].(*regexp.Regexp)
+		if !ok {
+			it.abort("regexp receiver is not a compiled constant pattern")
+		}
+		ms := re.FindStringSubmatch(str(1))
+		if ms == nil {
+			return &c30XSlice{}, true
+		}
+		out := &c30XSlice{elems: make([]interface{}, len(ms))}
+		for i, m := range ms {
+			out.elems[i] = m
+		}
+		return out, true
+	case "func:strings.TrimPrefix":
+		return strings.TrimPrefix(str(0), str(1)), true
+	case "func:strings.TrimLeft":
+		return strings.TrimLeft(str(0), str(1)), true
+	case "func:strings.ToLower":
+		return strings.ToLower(str(0)), true
+	case "func:strings.HasPrefix":
+		return strings.HasPrefix(str(0), str(1)), true
+	case "func:strings.Split":
+		parts := strings.Split(str(0), str(1))
+		out := &c30XSlice{elems: make([]interface{}, len(parts))}
+		for i, m := range parts {
+			out.elems[i] = m
+		}
+		return out, true
+	}
+	return nil, false
 }
